@@ -42,7 +42,7 @@ def programs(tier):
     if tier != "thorough":
         # all single-atom premises (every repeated-variable pattern of every relation), all premise-equality placements,
         # every tenth of the pairs
-        single = [p for p in sweep if len(p[0].split("_")[1]) == 1 or p[0].startswith("s_eq_")]
+        single = [p for p in sweep if len(p[0].split("_")[1]) == 1 or p[0].startswith("s_eq")]
         sweep = single + [p for p in sweep if p not in single][::10]
     out += sweep
     return out
